@@ -34,6 +34,9 @@ pub struct Subscription {
 
     /// Used by the actor to notify of interesting events.
     observer: Arc<SubscriptionObserver>,
+
+    /// The push configuration the subscription was created with, if any.
+    pub push_config: Option<PushConfig>,
 }
 
 /// Information about a subscription.
@@ -81,6 +84,7 @@ impl Subscription {
 
         // Create the actor, pass in the observer.
         let name = info.name.clone();
+        let push_config = info.push_config.clone();
         let sender = SubscriptionActor::start(
             internal_id,
             info,
@@ -96,6 +100,7 @@ impl Subscription {
             sender,
             internal_id,
             observer,
+            push_config,
         }
     }
 
